@@ -225,4 +225,271 @@ theorem inv_run {S : Nat → Data} (hS : ∀ i, IsMap (S i)) (pre : Nat) (r0 : O
   simp only [validRun, Bool.and_eq_true] at hv
   exact inv_loop hS evs (inv_pull hS (inv_start S pre) r0 hv.1) hv.2
 
+/-! ### Traces: splitting, write counting, stability of a converged state over a whole suffix -/
+
+theorem loop_append (S : Nat → Data) : ∀ (a b : List Ev) (st : St), loop S st (a ++ b) = loop S (loop S st a) b
+  | [], _, _ => rfl
+  | e :: a, b, st => by simp only [List.cons_append, loop]; exact loop_append S a b _
+
+theorem validLoop_append (S : Nat → Data) : ∀ (a b : List Ev) (st : St),
+    validLoop S st (a ++ b) = (validLoop S st a && validLoop S (loop S st a) b)
+  | [], _, _ => by simp [validLoop, loop]
+  | e :: a, b, st => by
+    simp only [List.cons_append, validLoop, loop, validLoop_append S a b, Bool.and_assoc]
+
+theorem run_append (S : Nat → Data) (pre : Nat) (r0 : Option Nat) (a b : List Ev) :
+    run S pre r0 (a ++ b) = loop S (run S pre r0 a) b := loop_append S a b _
+
+theorem validRun_append (S : Nat → Data) (pre : Nat) (r0 : Option Nat) (a b : List Ev) :
+    validRun S pre r0 (a ++ b) = (validRun S pre r0 a && validLoop S (run S pre r0 a) b) := by
+  simp only [validRun, run, validLoop_append, Bool.and_assoc]
+
+theorem pullCompareSend_cur (S : Nat → Data) (st : St) (r : Option Nat) : (pullCompareSend S st r).cur = st.cur := by
+  cases r with
+  | none => rfl
+  | some i => simp only [pullCompareSend]; split <;> rfl
+
+/-- `cur` counts the writes. -/
+theorem loop_cur (S : Nat → Data) : ∀ (evs : List Ev) (st : St), (loop S st evs).cur = st.cur + evs.count Ev.write
+  | [], _ => by simp [loop]
+  | e :: es, st => by
+    rw [loop, loop_cur S es]
+    cases e <;> simp [step, pullCompareSend_cur]
+    omega
+
+theorem run_cur (S : Nat → Data) (pre : Nat) (r0 : Option Nat) (evs : List Ev) :
+    (run S pre r0 evs).cur = pre + evs.count Ev.write := by
+  rw [run, loop_cur, pullCompareSend_cur]; rfl
+
+/-- A converged state: some pull succeeded and the last one read the current store state. -/
+def Converged (st : St) : Prop := st.pulled = true ∧ st.idx = st.cur
+
+theorem stable_step {S : Nat → Data} {st : St} (inv : Inv S st) (hc : Converged st) (e : Ev) (hne : e ≠ Ev.write)
+    (hok : okEv st e = true) :
+    Converged (step S st e) ∧ (step S st e).sentRev = st.sentRev ∧ (step S st e).cur = st.cur ∧
+      (step S st e).last = st.last := by
+  have key : ∀ r, okOutcome st r = true →
+      Converged (pullCompareSend S st r) ∧ (pullCompareSend S st r).sentRev = st.sentRev ∧
+        (pullCompareSend S st r).cur = st.cur ∧ (pullCompareSend S st r).last = st.last := by
+    intro r hr
+    cases r with
+    | none => exact ⟨hc, rfl, rfl, rfl⟩
+    | some i =>
+      simp only [okOutcome, Bool.and_eq_true, decide_eq_true_eq] at hr
+      have hi : i = st.idx := by have := hc.2; omega
+      have := inv.tracks hc.1
+      simp only [pullCompareSend, hi, this, Bool.not_true, Bool.false_eq_true, ↓reduceIte, Converged,
+        and_self, and_true, true_and]
+      exact hc.2
+  cases e with
+  | write => exact absurd rfl hne
+  | tick r => exact key r hok
+  | watchEvent r => exact key r hok
+  | watchCancel => exact ⟨hc, rfl, rfl, rfl⟩
+  | progress => exact ⟨hc, rfl, rfl, rfl⟩
+
+/-- Once converged, a whole suffix without writes — ticks, watch events, failed pulls, cancels, progress
+notifications in any number and order — delivers nothing and keeps the state converged. -/
+theorem stable_loop {S : Nat → Data} (hS : ∀ i, IsMap (S i)) : ∀ (evs : List Ev) {st : St}, Inv S st → Converged st →
+    Ev.write ∉ evs → validLoop S st evs = true →
+    Converged (loop S st evs) ∧ (loop S st evs).sentRev = st.sentRev ∧ (loop S st evs).cur = st.cur ∧
+      (loop S st evs).last = st.last
+  | [], _, _, hc, _, _ => ⟨hc, rfl, rfl, rfl⟩
+  | e :: es, st, inv, hc, hw, hv => by
+    simp only [validLoop, Bool.and_eq_true] at hv
+    have hne : e ≠ Ev.write := fun h => hw (by simp [h])
+    have hes : Ev.write ∉ es := fun h => hw (List.mem_cons_of_mem _ h)
+    obtain ⟨hc', h1, h2, h3⟩ := stable_step inv hc e hne hv.1
+    obtain ⟨hc'', g1, g2, g3⟩ := stable_loop hS es (inv_step hS inv e hv.1) hc' hes hv.2
+    exact ⟨hc'', by rw [loop, g1, h1], by rw [loop, g2, h2], by rw [loop, g3, h3]⟩
+
+/-- A successful pull of the current state converges (whatever happened before). -/
+theorem converged_of_fresh_pull (S : Nat → Data) (st : St) (e : Ev)
+    (he : e = Ev.tick (some st.cur) ∨ e = Ev.watchEvent (some st.cur)) : Converged (step S st e) := by
+  rcases he with rfl | rfl <;> (simp only [step, pullCompareSend, Converged]; split <;> simp)
+
+
+/-! ### The channel between `send` and the consumer: nothing is lost, duplicated or reordered -/
+
+/-- Delivery invariant: received ++ buffered ++ the blocked send = everything handed to `send`, in order;
+the buffer never exceeds its capacity; a send only blocks on a full buffer. -/
+structure ChanInv (st : St) (c : Chan) : Prop where
+  conserve : c.recvd ++ c.buf ++ c.pending.toList = st.sentRev.reverse.map Prod.snd
+  cap : c.buf.length ≤ chanCap
+  full : c.pending.isSome = true → c.buf.length = chanCap
+
+theorem step_sent (S : Nat → Data) (st : St) (e : Ev) :
+    (step S st e).sentRev = st.sentRev ∨ ∃ x, (step S st e).sentRev = x :: st.sentRev := by
+  have key : ∀ r, (pullCompareSend S st r).sentRev = st.sentRev ∨
+      ∃ x, (pullCompareSend S st r).sentRev = x :: st.sentRev := by
+    intro r
+    cases r with
+    | none => exact Or.inl rfl
+    | some i =>
+      simp only [pullCompareSend]
+      split
+      · exact Or.inr ⟨_, rfl⟩
+      · exact Or.inl rfl
+  cases e with
+  | write => exact Or.inl rfl
+  | tick r => exact key r
+  | watchEvent r => exact key r
+  | watchCancel => exact Or.inl rfl
+  | progress => exact Or.inl rfl
+
+theorem chanInv_consume {st : St} {c : Chan} (h : ChanInv st c) : ChanInv st c.consume := by
+  obtain ⟨buf, pending, recvd⟩ := c
+  obtain ⟨h1, h2, h3⟩ := h
+  cases buf with
+  | nil => exact ⟨h1, h2, h3⟩
+  | cons d rest =>
+    cases pending with
+    | none =>
+      refine ⟨?_, ?_, fun hp => by simp [Chan.consume] at hp⟩
+      · simpa [Chan.consume, List.append_assoc] using h1
+      · simp only [Chan.consume, List.length_cons] at h2 ⊢; omega
+    | some q =>
+      have hfull := h3 rfl
+      refine ⟨?_, ?_, fun hp => by simp [Chan.consume] at hp⟩
+      · simpa [Chan.consume, List.append_assoc] using h1
+      · simp only [Chan.consume, List.length_append, List.length_cons, List.length_nil] at hfull ⊢; omega
+
+theorem chanInv_send {st : St} {c : Chan} (h : ChanInv st c) (hp : c.pending = none) (x : Nat × Data)
+    {st' : St} (hs : st'.sentRev = x :: st.sentRev) : ChanInv st' (c.send x.2) := by
+  obtain ⟨buf, pending, recvd⟩ := c
+  obtain ⟨h1, h2, h3⟩ := h
+  simp only at hp; subst hp
+  simp only [Option.toList, List.append_nil] at h1
+  unfold Chan.send
+  by_cases hl : buf.length < chanCap
+  · simp only [hl, ↓reduceIte]
+    refine ⟨?_, ?_, fun hp => by simp at hp⟩
+    · simp only [hs, List.reverse_cons, List.map_append, List.map_cons, List.map_nil, ← h1, Option.toList,
+        List.append_nil, List.append_assoc]
+    · simp only [List.length_append, List.length_cons, List.length_nil]; omega
+  · simp only [hl, ↓reduceIte]
+    refine ⟨?_, h2, fun _ => by simp only at h2 ⊢; omega⟩
+    simp only [hs, List.reverse_cons, List.map_append, List.map_cons, List.map_nil, ← h1, Option.toList]
+
+theorem newlySent_same {st st' : St} (h : st'.sentRev = st.sentRev) : newlySent st st' = none := by
+  simp [newlySent, h]
+
+theorem newlySent_cons {st st' : St} (x : Nat × Data) (h : st'.sentRev = x :: st.sentRev) :
+    newlySent st st' = some x.2 := by
+  simp [newlySent, h]
+
+theorem chanInv_cstep (S : Nat → Data) {p : St × Chan} (h : ChanInv p.1 p.2) (e : CEv) :
+    ChanInv (cstep S p e).1 (cstep S p e).2 := by
+  obtain ⟨st, c⟩ := p
+  cases e with
+  | consume => exact chanInv_consume h
+  | env e =>
+    have hnw : ∀ e, (step S st e).sentRev = st.sentRev ∨ ∃ x, (step S st e).sentRev = x :: st.sentRev :=
+      step_sent S st
+    have key : ∀ e, ChanInv (if c.pending.isSome then (st, c) else
+        (step S st e, match newlySent st (step S st e) with | none => c | some d => c.send d)).1
+        (if c.pending.isSome then (st, c) else
+        (step S st e, match newlySent st (step S st e) with | none => c | some d => c.send d)).2 := by
+      intro e
+      by_cases hp : c.pending.isSome = true
+      · simp only [hp, ↓reduceIte]; exact h
+      · simp only [hp, Bool.false_eq_true, ↓reduceIte]
+        have hnone : c.pending = none := by simpa using hp
+        rcases hnw e with hs | ⟨x, hs⟩
+        · rw [newlySent_same hs]
+          exact ⟨by rw [hs]; exact h.conserve, h.cap, h.full⟩
+        · rw [newlySent_cons x hs]
+          exact chanInv_send h hnone x hs
+    cases e with
+    | write => exact ⟨h.conserve, h.cap, h.full⟩
+    | tick r => exact key _
+    | watchEvent r => exact key _
+    | watchCancel => exact key _
+    | progress => exact key _
+
+theorem chanInv_cloop (S : Nat → Data) : ∀ (evs : List CEv) {p : St × Chan}, ChanInv p.1 p.2 →
+    ChanInv (cloop S p evs).1 (cloop S p evs).2
+  | [], _, h => h
+  | e :: es, _, h => chanInv_cloop S es (chanInv_cstep S h e)
+
+theorem chanInv_cstart (S : Nat → Data) (pre : Nat) (r0 : Option Nat) :
+    ChanInv (cstart S pre r0).1 (cstart S pre r0).2 := by
+  have h0 : ChanInv (St.start pre) Chan.empty := ⟨rfl, by simp [Chan.empty, chanCap], fun h => by simp [Chan.empty] at h⟩
+  cases r0 with
+  | none => exact h0
+  | some i =>
+    simp only [cstart, pullCompareSend]
+    split
+    · rw [newlySent_cons (i, S i) rfl]
+      exact chanInv_send h0 rfl (i, S i) rfl
+    · rw [newlySent_same (st := St.start pre) (st' := { St.start pre with idx := i, pulled := true }) rfl]
+      exact ⟨h0.conserve, h0.cap, h0.full⟩
+
+/-- The syncer component of the combined system is the plain model run over the events it processed. -/
+theorem cloop_fst (S : Nat → Data) : ∀ (evs : List CEv) (p : St × Chan),
+    (cloop S p evs).1 = loop S p.1 (effective S p evs)
+  | [], _ => rfl
+  | .consume :: es, p => by
+    simp only [cloop, effective]; rw [cloop_fst S es]; rfl
+  | .env e :: es, p => by
+    simp only [cloop, effective]
+    by_cases hb : (e != Ev.write && p.2.pending.isSome) = true
+    · simp only [hb, ↓reduceIte]
+      rw [cloop_fst S es]
+      have : (cstep S p (.env e)).1 = p.1 := by
+        simp only [Bool.and_eq_true, bne_iff_ne, ne_eq] at hb
+        cases e <;> simp_all [cstep]
+      rw [this]
+    · simp only [hb, Bool.false_eq_true, ↓reduceIte, loop]
+      rw [cloop_fst S es]
+      have : (cstep S p (.env e)).1 = step S p.1 e := by
+        cases e with
+        | write => rfl
+        | tick r => simp only [Bool.and_eq_true, bne_iff_ne, ne_eq, not_and] at hb; simp [cstep, hb]
+        | watchEvent r => simp only [Bool.and_eq_true, bne_iff_ne, ne_eq, not_and] at hb; simp [cstep, hb]
+        | watchCancel => simp only [Bool.and_eq_true, bne_iff_ne, ne_eq, not_and] at hb; simp [cstep, hb]
+        | progress => simp only [Bool.and_eq_true, bne_iff_ne, ne_eq, not_and] at hb; simp [cstep, hb]
+      rw [this]
+
+theorem crun_fst (S : Nat → Data) (pre : Nat) (r0 : Option Nat) (evs : List CEv) :
+    (crun S pre r0 evs).1 = run S pre r0 (effective S (cstart S pre r0) evs) := by
+  unfold crun run; rw [cloop_fst]; rfl
+
+/-! ### Draining -/
+
+def Chan.load (c : Chan) : Nat := c.buf.length + c.pending.toList.length
+
+theorem cloop_append (S : Nat → Data) : ∀ (a b : List CEv) (p : St × Chan), cloop S p (a ++ b) = cloop S (cloop S p a) b
+  | [], _, _ => rfl
+  | e :: a, b, p => by simp only [List.cons_append, cloop]; exact cloop_append S a b _
+
+theorem consume_load {st : St} {c : Chan} (h : ChanInv st c) : c.consume.load = c.load - 1 := by
+  obtain ⟨buf, pending, recvd⟩ := c
+  cases buf with
+  | nil =>
+    cases pending with
+    | none => rfl
+    | some q => have := h.full rfl; simp [chanCap] at this
+  | cons d rest =>
+    cases pending <;> simp [Chan.consume, Chan.load]
+
+/-- `n` receives with nothing sent in between empty a channel whose load is at most `n`. -/
+theorem drain_consumes (S : Nat → Data) : ∀ (n : Nat) (p : St × Chan), ChanInv p.1 p.2 → p.2.load ≤ n →
+    (cloop S p (List.replicate n CEv.consume)).2.buf = [] ∧
+    (cloop S p (List.replicate n CEv.consume)).2.pending = none ∧
+    (cloop S p (List.replicate n CEv.consume)).1 = p.1
+  | 0, p, _, hl => by
+    obtain ⟨st, ⟨buf, pending, recvd⟩⟩ := p
+    simp only [Chan.load, Nat.le_zero, Nat.add_eq_zero_iff, List.length_eq_zero_iff] at hl
+    cases pending with
+    | none => exact ⟨hl.1, rfl, rfl⟩
+    | some q => simp at hl
+  | n + 1, p, h, hl => by
+    simp only [List.replicate_succ, cloop]
+    have h' : ChanInv (cstep S p .consume).1 (cstep S p .consume).2 := chanInv_cstep S h .consume
+    have hl' : (cstep S p .consume).2.load ≤ n := by
+      simp only [cstep]; rw [consume_load h]; omega
+    obtain ⟨g1, g2, g3⟩ := drain_consumes S n (cstep S p .consume) h' hl'
+    exact ⟨g1, g2, by rw [g3]; rfl⟩
+
 end EgVerif.Syncer
